@@ -6,12 +6,21 @@ spec (typed lines).
 
 A case:  {'acts': {lid: act}, 'ops': [op, ...]}
   op = ['submit', id, text, hascb] | ['bytes', text] | ['lost', clean] | ['whendisc', rid]
+     | ['resubmit', id, text, hascb]   -- a submission made from inside the result callback of the command that the
+                                          preceding bytes op resolves (its last line is that command's final line); for
+                                          the model and the spec this is the submission that follows those bytes
+     | ['nested', rid, op]             -- `op` (a submit or whendisc) made from inside the disconnect notification `rid`; it
+                                          stands right after the op that causes that notification (the loss, or the
+                                          `whendisc rid` itself when the connection is already gone)
      | ['addl', name, lid, cmdid] | ['reml', name, lid, cmdid]
   and, for the spec side, case['tls'][i] = typed lines completed by ops[i] when it is a bytes op:
      ['mid', code, text] | ['ds', code, text] | ['dl', text] | ['de'] | ['fin', code, text]
 """
 from harness.common import hexs
 
+# command texts; some carry characters that mean something to str.format / % formatting
+SUBMIT_TEXTS = ['GETINFO version', 'GETCONF SocksPort', 'SIGNAL NEWNYM', 'X', 'GETINFO ns/all', 'SETCONF a=b',
+                'SETCONF ExitNodes={us},{de}', 'SETCONF x={}', 'SETCONF Nickname=%s', 'GETINFO {0}%d']
 EVENT_NAMES = ['CIRC', 'STREAM', 'CONF_CHANGED', 'FOO', 'HS_DESC']
 TEXT_ALPHA = list('a 250-+.=OK"') + ['6', 'x', "'", ',', ':']
 
@@ -39,6 +48,10 @@ class Impl:
         self.acts = acts
         self.cbs = {}
         self.calls = 0
+        self.armed = None        # a submission to make from inside the next command result callback
+        self.consumed = None     # the armed op that was made that way
+        self.nested = {}         # rid -> ops to make from inside that disconnect notification
+        self.performed = set()
         self.proto = TorControlProtocol()
         self.tr = proto_helpers.StringTransport()
         self.wbuf = b''
@@ -104,11 +117,18 @@ class Impl:
         return cb
 
     def watch(self, d, cid, none_ok=True):
+        def reenter():
+            if self.armed is not None:
+                op, self.armed = self.armed, None
+                self.consumed = op
+                self.submit(op)
+
         def ok(r):
             if r is None:
                 self.log.append('oknone %d' % cid)
             else:
                 self.log.append('ok %d %s' % (cid, hexs(r)))
+            reenter()
 
         def bad(f):
             from txtorcon.torcontrolprotocol import TorProtocolError, TorDisconnectError
@@ -118,36 +138,72 @@ class Impl:
                 self.log.append('discerr %d' % cid)
             else:
                 self.log.append('fail %d %s' % (cid, f.type.__name__))
+            reenter()
         d.addCallbacks(ok, bad)
 
-    def do(self, op):
-        """run one op, return the outputs it caused"""
+    def submit(self, op):
+        _, cid, text, hascb = op
+        if hascb:
+            d = self.proto.queue_command(text, lambda line, cid=cid: self.log.append('cb %d %s' % (cid, hexs(line))))
+        else:
+            d = self.proto.queue_command(text)
+        self.watch(d, cid)
+
+    def whendisc(self, op):
+        rid = op[1]
+        d = self.proto.when_disconnected()
+
+        def notified(r, rid=rid):
+            self.log.append('notified %d' % rid)
+            for k, inner in enumerate(self.nested.get(rid, [])):
+                if (rid, k) not in self.performed:
+                    self.performed.add((rid, k))
+                    self.inner(inner)
+            return None
+        d.addBoth(notified)
+
+    def inner(self, op):
+        if op[0] == 'submit':
+            self.submit(op)
+        elif op[0] == 'whendisc':
+            self.whendisc(op)
+
+    def do(self, op, nxt=None):
+        """run one op, return the outputs it caused; `nxt` is the op that follows (a `resubmit` is made from inside
+        the result callback that these bytes trigger)"""
         start = len(self.log)
         self.calls = 0
         k = op[0]
         try:
             if k == 'submit':
-                _, cid, text, hascb = op
-                if hascb:
-                    d = self.proto.queue_command(text, lambda line, cid=cid: self.log.append('cb %d %s' % (cid, hexs(line))))
+                self.submit(op)
+            elif k == 'resubmit':
+                if self.consumed is op:
+                    self.consumed = None        # made inside the callback; its outputs are in the previous group
                 else:
-                    d = self.proto.queue_command(text)
-                self.watch(d, cid)
+                    self.submit(op)             # the callback did not run: an ordinary submission
             elif k == 'bytes':
                 if not self.dead:
+                    self.armed = nxt if (nxt is not None and nxt[0] == 'resubmit') else None
                     try:
                         self.proto.dataReceived(op[1].encode('latin-1'))
                     except Exception as e:
                         self.dead = True
                         self.log.append('exc ' + type(e).__name__)
+                    self.armed = None
             elif k == 'lost':
                 from twisted.python.failure import Failure
                 from twisted.internet.error import ConnectionDone, ConnectionLost
                 self.proto.connectionLost(Failure(ConnectionDone() if op[1] else ConnectionLost()))
             elif k == 'whendisc':
-                rid = op[1]
-                d = self.proto.when_disconnected()
-                d.addBoth(lambda r, rid=rid: self.log.append('notified %d' % rid) or None)
+                self.whendisc(op)
+            elif k == 'nested':
+                lst = self.nested.get(op[1], [])
+                k2 = next((j for j, x in enumerate(lst) if x == op[2] and (op[1], j) not in self.performed), None)
+                if k2 is not None:
+                    # the notification has not happened: made as an ordinary call
+                    self.performed.add((op[1], k2))
+                    self.inner(op[2])
             elif k == 'addl':
                 self.watch(self.proto.add_event_listener(op[1], self.listener(op[2])), op[3])
             elif k == 'reml':
@@ -165,10 +221,14 @@ def run_impl(case):
     from harness.common import watchdog, Hang
     im = Impl(case.get('acts', {}))
     groups = []
+    for op in case['ops']:
+        if op[0] == 'nested':
+            im.nested.setdefault(op[1], []).append(op[2])
     try:
         with watchdog(5):
-            for op in case['ops']:
-                groups.append((op[0], im.do(op)))
+            ops = case['ops']
+            for i, op in enumerate(ops):
+                groups.append((op[0], im.do(op, ops[i + 1] if i + 1 < len(ops) else None)))
     except Hang:
         groups.append(('hang', ['HANG: the implementation did not return within 5 s']))
     return groups
@@ -180,6 +240,12 @@ def canon(groups):
     out = []
     for kind, outs in groups:
         kind = 'rx' if kind in ('bytes', 'tl') else kind
+        if kind in ('resubmit', 'nested'):
+            # made from inside a callback: what it causes belongs to the group of the bytes before it
+            if out:
+                out[-1][1].extend(outs)
+                continue
+            kind = 'submit'
         if kind == 'rx' and out and out[-1][0] == 'rx':
             out[-1][1].extend(outs)
         else:
@@ -198,7 +264,7 @@ def act_word(lid, act):
 
 def op_line(op):
     k = op[0]
-    if k == 'submit':
+    if k in ('submit', 'resubmit'):
         return 'submit %d %s %d' % (op[1], hexs(op[2]), 1 if op[3] else 0)
     if k == 'bytes':
         return 'bytes ' + hexs(op[1])
@@ -206,6 +272,8 @@ def op_line(op):
         return 'lost'
     if k == 'whendisc':
         return 'whendisc %d' % op[1]
+    if k == 'nested':
+        return op_line(op[2])
     return '%s %s %d %d' % (k, hexs(op[1]), op[2], op[3])
 
 
@@ -312,7 +380,7 @@ def gen_event(rng, names):
     return tls
 
 
-def gen_session(rng, *, n_steps=30, events=False, listeners=False, loss=False, acts_kinds=('r',), max_cmds=10):
+def gen_session(rng, *, n_steps=30, events=False, listeners=False, loss=False, acts_kinds=('r',), max_cmds=10, reenter=False):
     """generate one session adaptively against the real implementation; returns the recorded case"""
     n_l = rng.randint(1, 4) if listeners else 0
     names = EVENT_NAMES[:rng.randint(1, 3)] if (events or listeners) else []
@@ -334,6 +402,7 @@ def gen_session(rng, *, n_steps=30, events=False, listeners=False, loss=False, a
     n_sub = 0
     lost = False
     whendisc_n = 0
+    waiting_nested = []    # (rid, op) to be made when the loss is notified
     registered = []        # (name, lid) currently believed registered (only to choose sensible ops)
 
     def do(op):
@@ -362,6 +431,8 @@ def gen_session(rng, *, n_steps=30, events=False, listeners=False, loss=False, a
                   choices += ['event'] * 2
               if stream:
                   choices += ['deliver'] * 6
+              if reenter and n_sub < max_cmds and any(tl[0] == 'fin' and tl[1] < 600 for (_e, tl) in stream_tls):
+                  choices += ['redeliver']
               if listeners:
                   choices += ['addl', 'reml']
           if loss and (steps > n_steps // 3) and not lost and rng.random() < 0.15:
@@ -373,7 +444,7 @@ def gen_session(rng, *, n_steps=30, events=False, listeners=False, loss=False, a
           c = rng.choice(choices)
           if c == 'submit':
               n_sub += 1
-              text = rng.choice(['GETINFO version', 'GETCONF SocksPort', 'SIGNAL NEWNYM', 'X', 'GETINFO ns/all', 'SETCONF a=b'])
+              text = rng.choice(SUBMIT_TEXTS)
               do(['submit', next(ids), text, rng.random() < 0.3])
           elif c == 'reply':
               answered += 1
@@ -398,6 +469,25 @@ def gen_session(rng, *, n_steps=30, events=False, listeners=False, loss=False, a
               stream_tls = [(end - k, tl) for (end, tl) in stream_tls if end > k]
               tls_by_op[len(ops)] = done
               do(['bytes', chunk])
+          elif c == 'redeliver':
+              # deliver up to the end of the next command reply; the command's result callback submits another command
+              k = next(end for (end, tl) in stream_tls if tl[0] == 'fin' and tl[1] < 600)
+              chunk, stream = stream[:k], stream[k:]
+              done = [tl for (end, tl) in stream_tls if end <= k]
+              stream_tls = [(end - k, tl) for (end, tl) in stream_tls if end > k]
+              tls_by_op[len(ops)] = done
+              sub = ['resubmit', next(ids), rng.choice(['GETINFO version', 'SIGNAL NEWNYM', 'X']), rng.random() < 0.3]
+              ops.append(['bytes', chunk])
+              from harness.common import watchdog, Hang
+              try:
+                  with watchdog(5):
+                      outs = im.do(ops[-1], sub)
+              except Hang:
+                  raise GenAbort()
+              written += sum(1 for o in outs if o.startswith('write '))
+              if im.consumed is sub:
+                  n_sub += 1
+                  do(sub)
           elif c == 'addl':
               name, lid = rng.choice(names), rng.randint(1, n_l)
               registered.append((name, lid))
@@ -411,9 +501,23 @@ def gen_session(rng, *, n_steps=30, events=False, listeners=False, loss=False, a
           elif c == 'lost':
               lost = True
               do(['lost', rng.random() < 0.5])
+              for rid, inner in waiting_nested:
+                  do(['nested', rid, inner])
           elif c == 'whendisc':
               whendisc_n += 1
-              do(['whendisc', 9000 + whendisc_n])
+              rid = 9000 + whendisc_n
+              inner = None
+              if rng.random() < 0.35:
+                  # the notification's callback asks again, or submits a command
+                  whendisc_n += 1
+                  inner = rng.choice([['whendisc', 9000 + whendisc_n], ['submit', next(ids), rng.choice(SUBMIT_TEXTS), rng.random() < 0.3]])
+                  im.nested.setdefault(rid, []).append(inner)
+              do(['whendisc', rid])
+              if inner is not None:
+                  if lost:
+                      do(['nested', rid, inner])
+                  else:
+                      waiting_nested.append((rid, inner))
     except GenAbort:
         return {'acts': acts, 'ops': ops, 'tls': {str(i): tls_by_op.get(i, []) for i, op in enumerate(ops) if op[0] == 'bytes'}}
     # drain what Tor already sent (unless the connection is gone)
